@@ -1,6 +1,18 @@
 (** Correspondence runner for C06: exact key text of TapeRecorder._input_interception_key. *)
 From Playback Require Export Base.Str Values.PyVal Values.Codec Values.KeyFormat Values.JsonWf.
+From Playback Require Export Recorder.Dsl.
+From Playback Require Import Recorder.Exec.
 Open Scope list_scope.
+
+(** one call made while a recording is played, through an interception declared with a resolver and fallback
+    aliases: the keys the decorator looked up, in order (None = key creation failed) *)
+Record lookup := Lookup {
+  l_resolver : resolver;
+  l_fallbacks : fallbacks;
+  l_args : list pyval;                 (* full positional tuple, self included for instance calls *)
+  l_kwargs : list (str * pyval);
+  l_impl : option (list str)
+}.
 
 Record case := Case {
   c_alias : str;
@@ -9,8 +21,10 @@ Record case := Case {
   c_args : list pyval;                 (* full positional tuple, self included for instance calls *)
   c_kwargs : list (str * pyval);
   c_impl : option str;                 (* _input_interception_key called directly; None = it raised *)
-  c_impl_dec : option (option str)     (* key found in a recording made through the real decorator
+  c_impl_dec : option (option str);    (* key found in a recording made through the real decorator
                                           (Some None = recording discarded, key creation failed) *)
+  c_lookups : list lookup              (* lookups of the case's interception (same alias text as template, capture
+                                          selection and kind) declared with a resolver / fallback aliases *)
 }.
 
 Definition model_key (c : case) : option str :=
@@ -21,8 +35,20 @@ Definition model_key (c : case) : option str :=
 Definition premises_ok (c : case) : bool :=
   forallb leaves_ok (c_args c) && forallb (fun kv => leaves_ok (snd kv)) (c_kwargs c).
 
+(** main key (alias formatted by the resolver) followed by the key of the same call under every fallback alias:
+    Recorder.Exec.input_keys (tape_recorder.py:735-749), the model the recorder properties use *)
+Definition model_lookup (c : case) (l : lookup) : option (list str) :=
+  let cf := {| i_alias := c_alias c; i_resolver := l_resolver l; i_cap := c_cap c; i_static := c_static c;
+               i_handler := None; i_prep_discards := false; i_run_missing := false; i_vmiss := VMNone;
+               i_fallbacks := l_fallbacks l |} in
+  input_keys cf (if c_static c then l_args l else tl (l_args l)) (l_kwargs l).
+
+Definition lookup_ok (c : case) (l : lookup) : bool :=
+  forallb leaves_ok (l_args l) && forallb (fun kv => leaves_ok (snd kv)) (l_kwargs l) &&
+  option_eqb (list_eqb str_eqb) (model_lookup c l) (l_impl l).
+
 Definition check_case (c : case) : bool :=
-  premises_ok c &&
+  premises_ok c && forallb (lookup_ok c) (c_lookups c) &&
   option_eqb str_eqb (model_key c) (c_impl c) &&
   match c_impl_dec c with
   | None => true
